@@ -54,6 +54,9 @@ def run(ctx: Context) -> None:
     from . import c04 as _c04
     from .common import share_obligations as _share
     _share(ctx, _c04, {'R04.1', 'R04.2', 'R04.3', 'R04.4'}, 'R05.5')
+    ctx.rule('R05.8', "selections leave geometry out: the inventory of a CF grid names its bounds variables by the coordinates' own `bounds` attributes", floor=1)
+    from . import infra as _infra
+    _infra.cf_inventory_bounds(ctx, 'R05.8')
     from .common import adopt_foundations as _adopt
     _adopt(ctx, 'R05.7', ['geometry', 'order'], floor=60)
     ctx.assume("xarray Dataset.isel with a Dataset of integer arrays on a shared new dimension performs pointwise positional selection; pandas/xarray merges align on the point dimension")
@@ -454,7 +457,12 @@ def run(ctx: Context) -> None:
             if isinstance(n, ast.Call) and isinstance(n.func, ast.Attribute) and n.func.attr == 'reset_index':
                 drop = kwarg(n, 'drop')
                 if drop is not None and const_value(drop, None) is True and dflow.canon(n.func.value) == ('param', d2d.params[0]):
-                    positional, how = True, 'reset_index(drop=True)'
+                    from .common import path_conditions as _pcs
+                    conds_ = [norm_text(t) for t, _ in _pcs(d2d, n)]
+                    if conds_:
+                        how = f"reset_index(drop=True) only under {conds_} (a RangeIndex need not start at 0 or have step 1)"
+                    else:
+                        positional, how = True, 'reset_index(drop=True)'
         for st in walk_no_nested(d2d.node):
             # frame.index = pandas.RangeIndex(len(frame)) / numpy.arange(len(frame))
             if isinstance(st, ast.Assign) and isinstance(st.targets[0], ast.Attribute) and st.targets[0].attr == 'index' and isinstance(st.value, ast.Call) \
